@@ -540,6 +540,8 @@ def check_exec(run: ERun, ref) -> str | None:
     msgs, recvs = run.leftover
     if msgs or recvs:
         return f"leftover:messages{msgs}:receives{recvs}"
+    if ref is None:         # no reference solution (invalid program): values are not judged
+        return None
     for r, o in enumerate(run.outcomes):
         want = ref[r]
         got = o.value
